@@ -29,6 +29,7 @@ import (
 	"hash"
 	"hash/fnv"
 	"math/big"
+	"encoding/asn1"
 	"os"
 	"path/filepath"
 	"strconv"
@@ -695,6 +696,12 @@ func vfJwtSign(d *vfJwtDesc, sk *vfJwtKey, input string) ([]byte, string, bool) 
 			}
 			rb, sb := r.FillBytes(make([]byte, n)), s.FillBytes(make([]byte, n))
 			switch d.SF {
+			case "der": // the same (r, s) as an ASN.1 SEQUENCE, as OpenSSL / Java / KMS signers emit it: not the JWS form
+				der, err := asn1.Marshal(struct{ R, S *big.Int }{r, s})
+				if err != nil {
+					panic(err)
+				}
+				return der, "garbage", true
 			case "padded":
 				return append(append([]byte{0}, rb...), append([]byte{0}, sb...)...), "padded", true
 			case "padded2":
@@ -726,7 +733,7 @@ func vfJwtSigForm(sf string, sig []byte, ec bool) ([]byte, string, bool) {
 		return append([]byte{0}, out...), "padded", true
 	case "padded2":
 		return append([]byte{0, 0}, out...), "padded", true
-	case "stripped":
+	case "stripped", "der":
 		return nil, "", false
 	case "odd":
 		if ec {
@@ -1296,6 +1303,7 @@ var vfJwtDevs = func() []vfJwtDev {
 		{"sig-zero-padded", vfJwtSet(sf, "padded")},
 		{"sig-zero-padded-twice", vfJwtSet(sf, "padded2")},
 		{"sig-leading-zeros-stripped", vfJwtSet(sf, "stripped")},
+		{"sig-der-encoded", vfJwtSet(sf, "der")},
 		{"sig-text-trailing-bits", vfJwtSet(sb, "trailbits")}, // same decoded value: still acceptable
 		{"sig-text-not-base64", vfJwtSet(sb, "notb64")},
 		{"sig-text-padded", vfJwtSet(sb, "pad=")},
